@@ -46,6 +46,9 @@ func init() {
 			"Loaded material shapes (a separate sub-workload): LoadedKey = typed nil pointer, zero value, key struct with the public half only (RSA and EC each: an error is owed, a panic is a violation), a non-pointer key value, an opaque crypto.Signer and an EC key on the generic (unnamed) implementation of its curve (of the right pair: an error or the whole identity; of the other pair: an error), " +
 			"a zero-value LoadedCertificate = " + fmt.Sprint(len(shapePoints())) + " points through all three entry points. " +
 			"Rotation (a separate sub-workload): " + fmt.Sprint(len(rotations)) + " call sequences x 3 entry points in which the content under ONE certificate+key path (ec > rsa > garbage > removed, and an order with re-creation) or ONE CA path (bundle > other root > removed ...) is replaced between calls; the call after every step is judged by the table row of the content that is there now (inspection only). " +
+			"Material sizes (a separate sub-workload): certificate, key and CA FILES that hold the usable material of the lattice's files but whose size is one byte below, exactly at and half a PEM block above 4 KiB, 32 KiB, 64 KiB and 1 MiB (the boundary then falls inside the block that stands last), reached with explanatory text lines or blank lines outside the PEM blocks " +
+			"or (CA files: the largest bundle not above the boundary / the smallest bundle that reaches half a block above it) with further valid root certificates minted once per worker, the needed block (the root that certifies S1, the client certificate, the client key) standing first or last in the file = " + fmt.Sprint(len(sizedPoints())) + " points, " +
+			"inspected through all three entry points (the pool must hold EVERY certificate of the CA file, compared with a pool built from the certificates the monitor minted), plus handshakes by either route against S1 and, for the CA-file points, against S0 (must be refused). " +
 			"Every exported field of the returned tls.Config that the table does not name (Time, KeyLogWriter, CipherSuites, Renegotiation, ...) is recorded as class unjudged-config-field-set:<field> when it is not zero. " +
 			"non-trivial = a lattice point with at least one option set (distinct by lattice index), and each executed handshake (distinct by lattice index x listener x verdict)",
 		Assumptions: []string{
@@ -65,6 +68,7 @@ func init() {
 			"a certificate supplied as a root is a supplied root whatever its basic constraints say (crypto/x509 accepts any certificate of RootCAs as a trust anchor); whether a chain then verifies is left to x509.Verify on the independently built expected pool",
 			"LoadedKey holding a usable key of the right pair as a non-pointer struct value or as an opaque crypto.Signer: the doc comments do not promise that form is accepted; an error is accepted, and so is a configuration that carries exactly the supplied identity; a configuration without it is a violation",
 			"exported tls.Config fields that the statement does not name are classed, not judged",
+			"text outside the PEM blocks of a file (explanatory lines, blank lines; RFC 7468 section 2, encoding/pem) is no part of the material: a file that holds the usable certificate / key / roots and such text is usable material of whatever size, and every certificate of a CA file is a supplied root wherever it stands in the file; the row owed is the row of the plain file",
 		},
 		MinNontrivial: latticeSize() - 1, // exhaustive: every non-trivial point of the lattice must have been inspected
 		QuickShards:   8,
@@ -205,6 +209,8 @@ type Case struct {
 	RootKind bool `json:"root_kind,omitempty"`
 	// Shape marks a point of the loaded-material-shapes sub-workload: Point.LoadedKey / LoadedCert name a value outside the lattice (typed nil, zero value, ...)
 	Shape bool `json:"loaded_shape,omitempty"`
+	// Sized marks a point of the material-sizes sub-workload: Point.CertFile / KeyFile / CAFile may name a sized file (base~pad~size~pos, see sizes.go)
+	Sized bool `json:"sized,omitempty"`
 	// Rotation is a sequence of contents written one after the other to ONE file path, with a call after each (inspection only)
 	Rotation *Rotation `json:"rotation,omitempty"`
 }
@@ -213,7 +219,7 @@ type Case struct {
 func caseFor(p Point) *Case {
 	q := p
 	return &Case{Point: &q, NameVariant: nameClass(p.ServerName) != "", Encoding: isEncodingFile(p.CertFile) || isEncodingFile(p.KeyFile),
-		RootKind: usesRootKind(p), Shape: usesShape(p)}
+		RootKind: usesRootKind(p), Shape: usesShape(p), Sized: usesSized(p)}
 }
 
 // ---- material encodings (a separate small sub-workload, NOT lattice dimensions) ----
@@ -222,6 +228,9 @@ func caseFor(p Point) *Case {
 // own identity; the extra files of the sub-workload are other ENCODINGS of the same usable material: a PKCS#8 key
 // file, one file holding certificate and key, and a certificate file of leaf plus intermediate ("chain": a pair of its own).
 func fileIdentity(name string) string {
+	if s, ok := parseSized(name); ok {
+		return s.base // a sized file holds the plain material plus text outside the PEM block
+	}
 	switch name {
 	case "ec-pkcs8", "ec-combined":
 		return "ec"
@@ -231,7 +240,9 @@ func fileIdentity(name string) string {
 	return name
 }
 
-func isEncodingFile(name string) bool { return fileIdentity(name) != name || name == "chain" }
+func isEncodingFile(name string) bool {
+	return !isSized(name) && (fileIdentity(name) != name || name == "chain")
+}
 
 // encodingPoints: usable material in the other encodings (the same configuration is owed as for the plain files),
 // two mismatching pairs built from them (an error is owed), each without roots and with LoadedCA = CA one.
@@ -426,7 +437,7 @@ func expect(p Point) expectation {
 	switch {
 	case p.CertFile != "":
 		// "Certificate ... If set then Key must also be set." "LoadedCertificate ... ignored if Certificate is set."
-		e.idClass = "files/" + p.CertFile + "+" + orUnset(p.KeyFile)
+		e.idClass = "files/" + slotClass(p.CertFile) + "+" + orUnset(slotClass(p.KeyFile))
 		switch {
 		case p.CertFile == "unreadable":
 			e.idErr, e.idReason = true, "cert-file-unreadable"
@@ -472,10 +483,10 @@ func expect(p Point) expectation {
 		// "CA ... This field is ignored if LoadedCA is set."
 		e.rootsClass = "loaded-ca" + notCA(p.LoadedCA)
 		if p.CAFile != "" {
-			e.rootsClass += "+ca-file-ignored(" + p.CAFile + ")"
+			e.rootsClass += "+ca-file-ignored(" + slotClass(p.CAFile) + ")"
 		}
 	case p.CAFile != "":
-		e.rootsClass = "ca-file(" + p.CAFile + ")" + notCA(p.CAFile)
+		e.rootsClass = "ca-file(" + slotClass(p.CAFile) + ")" + notCA(p.CAFile)
 		switch p.CAFile {
 		case "unreadable":
 			e.rootsErr = true
@@ -499,7 +510,10 @@ func expect(p Point) expectation {
 	}
 	switch {
 	case p.CertFile != "":
-		e.idKind = "cert-file"
+		e.idKind = "cert-file" + sizedKind(p.CertFile)
+		if k := sizedKind(p.KeyFile); k != "" {
+			e.idKind += "+key-file" + k
+		}
 	case p.LoadedCert != "":
 		e.idKind = "loaded-cert"
 	default:
@@ -509,7 +523,7 @@ func expect(p Point) expectation {
 	case p.LoadedCA != "":
 		e.rootsKind = "loaded-ca" + notCA(p.LoadedCA)
 	case p.CAFile != "":
-		e.rootsKind = "ca-file" + notCA(p.CAFile)
+		e.rootsKind = "ca-file" + notCA(p.CAFile) + sizedKind(p.CAFile)
 	case p.Pool != "":
 		e.rootsKind = "pool-only"
 	default:
@@ -557,6 +571,16 @@ func expectedPool(p Point, mat *material) *x509.CertPool {
 		pool.AddCert(mat.pinnedCert)
 	case p.CAFile == "ca1":
 		pool.AppendCertsFromPEM(mat.caBundlePEM) // every certificate of the file is a supplied root
+	case isSized(p.CAFile):
+		// every certificate of the file is a supplied root, wherever it stands and however large the file is; the
+		// certificates are the ones the monitor minted and wrote, not what a PEM parser finds in the file
+		roots, built := mat.sizedRoots[p.CAFile]
+		if !built {
+			mat.sizedMissing = true
+		}
+		for _, c := range roots {
+			pool.AddCert(c)
+		}
 	}
 	return pool
 }
@@ -661,8 +685,8 @@ func inspect(p Point, cfg *tls.Config, err error, h *handles, mat *material, ent
 		case cfg.RootCAs == nil:
 			add("roots-system-although-supplied/"+e.rootsClass, "roots were supplied (%s) but RootCAs is nil, i.e. the system pool is trusted instead", e.rootsClass)
 		case !want.Equal(cfg.RootCAs):
-			add("roots-differ/"+e.rootsClass, "RootCAs does not hold exactly the supplied roots (%s): expected %d subject(s) system-derived=%v, got %d subject(s)",
-				e.rootsClass, len(want.Subjects()), p.Pool == "system+ca2", len(cfg.RootCAs.Subjects())) //nolint:staticcheck
+			add("roots-differ/"+e.rootsClass, "RootCAs does not hold exactly the supplied roots (%s): expected %d subject(s) system-derived=%v, got %d subject(s)%s",
+				e.rootsClass, len(want.Subjects()), p.Pool == "system+ca2", len(cfg.RootCAs.Subjects()), describeSized(p, mat)) //nolint:staticcheck
 		}
 	}
 	// carried unchanged
@@ -759,6 +783,12 @@ type worker struct {
 // wrote says nothing about the library.
 func (w *worker) materialGone() bool {
 	if w.aborted {
+		return true
+	}
+	if w.mat != nil && w.mat.sizedMissing {
+		w.aborted = true
+		w.m.Note("harness_sized_file_not_built", 1)
+		fmt.Fprintln(os.Stderr, "C18: a sized file was asked for before the monitor had built it (plumbing of the harness): nothing more is evaluated, the run is inconclusive")
 		return true
 	}
 	if w.mat != nil && !w.mat.intact() {
@@ -1019,6 +1049,7 @@ func run(m *mon.M) {
 	w.rootKindsWorkload(m.Shard, step)
 	w.shapesWorkload(m.Shard, step)
 	w.rotationWorkload(m.Shard, step)
+	w.sizesWorkload(m.Shard, step)
 }
 
 // encodingsWorkload inspects every point of the material-encodings sub-workload through the three entry points and
@@ -1135,10 +1166,26 @@ func replay(m *mon.M, raw json.RawMessage) {
 		if probe.LoadedCert == "zero" {
 			probe.LoadedCert = ""
 		}
+		// files of the material-sizes sub-workload stand outside the lattice; they are built now and removed at the end
+		if isSized(probe.CertFile) {
+			probe.CertFile = ""
+		}
+		if isSized(probe.KeyFile) {
+			probe.KeyFile = ""
+		}
+		if isSized(probe.CAFile) {
+			probe.CAFile = ""
+		}
 		if indexOf(probe) < 0 {
 			m.Violate("bad-replay-case", "the point names a slot content that is not part of the lattice", nil)
 			return
 		}
+		cleanup, serr := mat.materialise(*c.Point)
+		if serr != nil {
+			harnessFailed(m, "harness_sized_file_failed", serr) // nothing is evaluated: the replay reports evaluations=0
+			return
+		}
+		defer cleanup()
 		if c.Server == "" {
 			entry := c.Entry
 			if entry == "" {
